@@ -47,6 +47,9 @@ func (r *Rng) weighted(ws ...int) int {
 	return len(ws) - 1
 }
 
+// RaceSeedBit marks batches generated for engine R.
+const RaceSeedBit = uint64(1) << 62
+
 var filters = []string{"a", "a/+", "b"}
 var topics = []string{"a", "a/x", "b", "c"}
 
@@ -69,6 +72,8 @@ func Generate(prop string, seed uint64, i uint64) *Scenario {
 		sc = genKeepAlive(r, prop)
 	case "idcycle":
 		sc = genIDCycle(r, prop)
+	case "race":
+		sc = genRace(r, prop)
 	default:
 		panic("unknown family " + fam)
 	}
@@ -80,7 +85,13 @@ func Generate(prop string, seed uint64, i uint64) *Scenario {
 
 // FamilyOf chooses the scenario family for a property (deterministic in i).
 func FamilyOf(prop string, seed, i uint64) string {
+	if seed&RaceSeedBit != 0 {
+		return "race"
+	}
 	switch prop {
+	case "C10":
+		// engine S contributes the framing rule over every family
+		return []string{"reconn", "base", "reconn", "retrymanual"}[i%4]
 	case "C04", "C06", "C07", "C11", "C15", "C20":
 		return "base"
 	case "C16":
